@@ -252,6 +252,10 @@ fn boolean_part(run: &Run, k_max: usize, small_full: bool, full_vals: bool) -> A
         // an operand is nothing or not comparable): `p<1 || p>=1` is not a tautology
         ["@.p<1".into(), "@.p>=1".into(), "@.p!=1".into()],
         ["@.p>@.q".into(), "@.p<=@.q".into(), "@.p==@.q".into()],
+        // function tests that are false for a reason of their own (a pattern that is no regular expression, a
+        // non-string subject, a pattern taken from a non-string): their negation is true
+        ["match(@.p,'[')".into(), "search(@.q,'*a')".into(), "match(@.r,@.p)".into()],
+        ["search(@.p,'')".into(), "match(@.q,'.*')".into(), "search(@.r,'a{2,1}')".into()],
     ];
     let cells_collide: Vec<Value> = {
         let mut v = vec![];
@@ -308,7 +312,7 @@ fn boolean_part(run: &Run, k_max: usize, small_full: bool, full_vals: bool) -> A
         forms.extend(extra);
     }
     // the two ordering-comparison sets run on the array-shaped container only (quick-tier budget)
-    let jobs: Vec<(usize, bool)> = (0..atom_sets.len()).flat_map(|a| if a >= 7 && !full_vals { vec![(a, false)] } else { vec![(a, false), (a, true)] }).collect();
+    let jobs: Vec<(usize, bool)> = (0..atom_sets.len()).flat_map(|a| if (7..13).contains(&a) && !full_vals { vec![(a, false)] } else { vec![(a, false), (a, true)] }).collect();
     let mut total = Acc::new();
     for (ai, as_obj) in jobs {
         let atoms = &atom_sets[ai];
